@@ -25,7 +25,7 @@ FIXES = [
     ('fbc0946', ['C03']), ('f6c0412', ['C03']), ('753f3a4', ['C03']), ('479eebc', ['C03']),
     ('7f2b980', ['C01', 'C03']), ('8d3c092', ['C03']), ('5d445c8', ['C03']), ('9f8d30f', ['C03']),
     ('20f0a5d', ['C03']), ('ad921fb', ['C03']),
-    ('123de53', ['C06']), ('f65b540', ['C03']), ('f4fd752', ['C03', 'C01']), ('c3264f7', ['C03']), ('293065b', ['C03']), ('758bfa3', ['C01']), ('e2934b0', ['C09']), ('bb7a193', ['C09']), ('9f98510', ['C02']),
+    ('123de53', ['C06']), ('f65b540', ['C03']), ('f4fd752', ['C03', 'C01']), ('c3264f7', ['C03']), ('293065b', ['C03']), ('758bfa3', ['C01']), ('e2934b0', ['C09']), ('bb7a193', ['C09']), ('9f98510', ['C02', 'C03']), ('7299f70', ['C03', 'C10', 'C01']), ('440c077', ['C10']),
 ]
 
 
